@@ -32,7 +32,7 @@ variable {R : Resolver} {sem : Sem} {env : FnEnv} {G : Graph} {reach : List Nat}
 /-- The decision procedure run on the real `Analyzer.in_/out` is sound. -/
 theorem isTIFix_sound (h : isTIFix R env G reach S ins outs = true) : IsTIFix R env G reach S ins outs := by
   simp only [isTIFix, reachClosed, Bool.and_eq_true, List.all_eq_true, List.contains_iff_mem] at h
-  obtain ⟨⟨⟨hentry, hclosed⟩, hctx⟩, hnodes⟩ := h
+  obtain ⟨⟨⟨⟨hentry, hclosed⟩, hctx⟩, hefree⟩, hnodes⟩ := h
   have hfind : ∀ i, i ∈ reach → ∃ n, G.find i = some n := by
     intro i hi
     have := hclosed i hi
@@ -45,7 +45,7 @@ theorem isTIFix_sound (h : isTIFix R env G reach S ins outs = true) : IsTIFix R 
     intro i n hi hf
     have := hnodes i hi
     simpa [hf, Bool.and_eq_true, List.all_eq_true] using this
-  refine ⟨hentry, ?_, hfind, TMap.leB_sound hctx, ?_, ?_, ?_, ?_⟩
+  refine ⟨hentry, ?_, hfind, TMap.leB_sound hctx, fun x T hx => hefree x (TMap.get_some_mem_keys hx), ?_, ?_, ?_, ?_⟩
   · intro i n k hi hf hk
     have := hclosed i hi
     simp only [hf, List.all_eq_true, List.contains_iff_mem] at this
